@@ -95,10 +95,66 @@ impl Prop for C05 {
         // with an edge restriction, every other case expresses it through the application's
         // road-class model (class file + per-query class list through the frontier builder, class
         // ids from the whole u8 range) instead of the harness frontier: same allowed set
-        let real_frontier = case.spec.allowed.is_some() && (case.o + case.spec.net.m()) % 2 == 0;
-        o.label_if(real_frontier, "restriction-through-the-road-class-model");
+        let flavour = (case.o + case.spec.net.m()) % 4;
+        let real_frontier = case.spec.allowed.is_some() && flavour % 2 == 0;
+        // ... and half of those through the vehicle-restriction model instead: a height limit
+        // on every forbidden edge, a tall vehicle in the judged query, and a low vehicle (for which
+        // every edge is open) answered first by the same service
+        let by_vehicle = real_frontier && flavour == 2;
+        o.label_if(real_frontier && !by_vehicle, "restriction-through-the-road-class-model");
+        o.label_if(by_vehicle, "restriction-through-the-vehicle-restriction-model");
         let swapped;
-        let si = if real_frontier {
+        let si = if by_vehicle {
+            let m = case.spec.net.m();
+            let dir = crate::engine::CaseDir::new();
+            let mut text = String::from("edge_id,restriction_name,restriction_value,restriction_unit\n");
+            for e in 0..m {
+                if !case.spec.edge_allowed(e) {
+                    text.push_str(&format!("{},maximum_height,{},{}\n", e, [3.0, 9.5, 118.0][e % 3], ["meters", "feet", "inches"][e % 3]));
+                }
+            }
+            let rp = dir.file("restrictions.csv");
+            if crate::appbuild::write_text(&rp, &text, false).is_err() {
+                return o;
+            }
+            thread_local! {
+                static BUILDER2: routee_compass::app::compass::config::compass_app_builder::CompassAppBuilder =
+                    routee_compass::app::compass::config::compass_app_builder::CompassAppBuilder::default();
+            }
+            let cfg = json!({"type": "vehicle_restriction", "vehicle_restriction_input_file": rp.to_string_lossy().to_string()});
+            let vehicle = |h: f64| json!({"vehicle_parameters": {"height": [h, "meters"], "width": [2.0, "meters"], "total_length": [10.0, "meters"],
+                "trailer_length": [5.0, "meters"], "total_weight": [10.0, "tons"], "number_of_axles": 2}});
+            let with_fm = |fm: std::sync::Arc<dyn routee_compass_core::model::frontier::frontier_model::FrontierModel>| routee_compass_core::algorithm::search::search_instance::SearchInstance {
+                directed_graph: built.si.directed_graph.clone(),
+                state_model: built.si.state_model.clone(),
+                traversal_model: built.si.traversal_model.clone(),
+                access_model: built.si.access_model.clone(),
+                cost_model: built.si.cost_model.clone(),
+                frontier_model: fm,
+                termination_model: built.si.termination_model.clone(),
+            };
+            let svc = match BUILDER2.with(|b| b.build_frontier_model_service(&cfg).map_err(|e| e.to_string())) {
+                Ok(s) => s,
+                Err(e) => {
+                    o.fail("C05/vehicle-restriction-model/valid-configuration-rejected", json!({"error": e}));
+                    return o;
+                }
+            };
+            match (svc.build(&vehicle(2.0), built.si.state_model.clone()), svc.build(&vehicle(4.0), built.si.state_model.clone())) {
+                (Ok(low), Ok(tall)) => {
+                    // the low vehicle first: a destination-less search touches every reachable edge
+                    let mut pre = case.clone();
+                    pre.d = None;
+                    let _ = run_search(&pre, &with_fm(low));
+                    swapped = with_fm(tall);
+                    &swapped
+                }
+                (a, b) => {
+                    o.fail("C05/vehicle-restriction-model/valid-query-rejected", json!({"errors": [a.err().map(|e| e.to_string()), b.err().map(|e| e.to_string())]}));
+                    return o;
+                }
+            }
+        } else if real_frontier {
             const PERMITTED: [u8; 4] = [1, 64, 130, 255];
             const OTHER: [u8; 4] = [0, 65, 2, 200];
             let m = case.spec.net.m();
